@@ -5,6 +5,7 @@ package facts
 // deadline travels unchanged through NewRequest → Execute → addProbe → AddBetween(…, before).
 
 import (
+	"strings"
 	"fmt"
 	"go/ast"
 	"io"
@@ -12,7 +13,7 @@ import (
 
 func init() {
 	Add("cyclefiner", func(w io.Writer, repo string) error {
-		var tickers, defs, reqs, expiry, adds, lastArgs, cycCalls, ctxDerived [][]string
+		var tickers, defs, reqs, expiry, adds, lastArgs, cycCalls, ctxDerived, runShape [][]string
 		for _, c := range []struct{ comp, fn string }{{"refresher", "refresh"}, {"reviver", "revive"}} {
 			s, err := loadSrc(repo, "cmd/swat4master/components/"+c.comp+"/"+c.comp+".go")
 			if err != nil {
@@ -49,6 +50,27 @@ func init() {
 				}
 				return true
 			})
+			// who may end the cycle's context, and when: the `go` statements of the file and every call of `cancel`
+			// (deferred or not) in `run`: a cycle in flight when the component is stopped runs to its end
+			for _, fd := range s.funcs() {
+				ast.Inspect(fd, func(n ast.Node) bool {
+					switch x := n.(type) {
+					case *ast.GoStmt:
+						runShape = append(runShape, []string{s.base(), fd.Name.Name, "go", strings.Join(strings.Fields(s.t(x.Call)), " ")})
+					case *ast.DeferStmt:
+						if id, ok := x.Call.Fun.(*ast.Ident); ok && id.Name == "cancel" {
+							runShape = append(runShape, []string{s.base(), fd.Name.Name, "defer", "cancel()"})
+						}
+					case *ast.ExprStmt:
+						if call, ok := x.X.(*ast.CallExpr); ok {
+							if id, ok := call.Fun.(*ast.Ident); ok && id.Name == "cancel" {
+								runShape = append(runShape, []string{s.base(), fd.Name.Name, "call", "cancel()"})
+							}
+						}
+					}
+					return true
+				})
+			}
 			for _, fd := range s.funcs() {
 				ast.Inspect(fd, func(n ast.Node) bool {
 					if call, sel := selCall(n); call != nil && s.t(sel.X) == "context" {
@@ -111,6 +133,8 @@ func init() {
 		fmt.Fprintf(w, "def cycleCalls : %s :=\n  %s\n", leanTupleType(4), leanTuples(cycCalls))
 		fmt.Fprintln(w, "/-- every call into package `context` in refresher.go / reviver.go (derived contexts, timeouts): (file, function, callee, arguments) -/")
 		fmt.Fprintf(w, "def cycleContextCalls : %s :=\n  %s\n", leanTupleType(4), leanTuples(ctxDerived))
+		fmt.Fprintln(w, "/-- every `go` statement and every call of `cancel` in refresher.go / reviver.go: (file, function, kind, text) -/")
+		fmt.Fprintf(w, "def cycleRunShape : %s :=\n  %s\n", leanTupleType(4), leanTuples(runShape))
 		fmt.Fprintln(w, "/-- what gives `now` and `deadline` their value in `refresh` / `revive`: (file, function, identifier, definition) -/")
 		fmt.Fprintf(w, "def cycleDeadlineDefs : %s :=\n  %s\n", leanTupleType(4), leanTuples(defs))
 		fmt.Fprintln(w, "/-- every `deadline := B.Add(E)` of `refresh` / `revive`, taken apart: (file, B, E) -/")
